@@ -20,13 +20,13 @@ simulation* g_sim;
 asio::io_context* g_ios;
 asio::high_resolution_timer* g_timer[NT];
 shadow_timer g_st[NT];
-int g_fifo[K + 2]; int g_head = 0, g_tail = 0;   // ids of handlers that are ready, in order
+int g_fifo[K + 4]; int g_head = 0, g_tail = 0;   // ids of handlers that are ready, in order
 int g_next_id = 1, g_seq = 0;
 long g_last_now = 0;
 int g_ops_done = 0;
 int g_ran = 0;
 int g_stops = 0;
-bool g_aborted[2 * K + 4];   // waits the shadow expects to complete with operation_aborted
+bool g_aborted[2 * K + 6];   // waits the shadow expects to complete with operation_aborted
 bool g_in_run = false;
 
 void run_next_op();
@@ -142,6 +142,19 @@ extern "C" int harness_main()
 	// the clock starts at zero
 	vp_assert(now_ns() == 0, 20);
 
+#ifdef TIES
+	// preset: two timers armed for the same (symbolic, future) instant with waits outstanding
+	{
+		long const t = vp_sym_long(1, 1L << 40);
+		for (int i = 0; i < 2; ++i)
+		{
+			int const id = g_next_id++;
+			g_timer[i]->expires_at(time_point(duration(t)));
+			g_st[i].pending = true; g_st[i].expiry = t; g_st[i].seq = g_seq++; g_st[i].id = id;
+			g_timer[i]->async_wait([id](error_code const& ec) { on_event(id, ec); });
+		}
+	}
+#endif
 	// how many ops are issued from outside run()
 	int const outside = vp_choose(K + 1);
 	for (int i = 0; i < outside; ++i) run_next_op();
